@@ -184,6 +184,11 @@ func (i *InvalidationIndex) cutKeys(labeledKeys map[string][]string, labels ...s
 	defer i.mu.Unlock()
 
 	for _, label := range labels {
+		// Label can be provided more than once, it is already cut then.
+		if _, cut := res[label]; cut {
+			continue
+		}
+
 		res[label] = labeledKeys[label]
 		delete(labeledKeys, label)
 	}
